@@ -248,10 +248,12 @@ class Check:
         return quick
 
     # ---- setup
-    def prepare(self):
+    def clear_replays(self):
         import glob
         for f in glob.glob(os.path.join(ROOT, "replays", self.pid + "-*.json")):
             os.unlink(f)
+
+    def prepare(self):
         self.implrun = build_harness()
         keys = os.path.join(BUILD, "pgpkeys.asc")
         os.environ["VERIF_PGPKEYS"] = keys
